@@ -192,6 +192,13 @@ def _pair_chain(ff: FuncFlow, e: Optional[ast.AST], p_iter: str):
             continue
           qfn = r.func
           nxt = g_.iter
+      elif isinstance(x, ast.Call) and ff.ext(x.func) == 'builtins.map' and len(x.args) == 3:
+        # map(f, CLIENTS, KEYS)  ==  starmap(f, zip(CLIENTS, KEYS))
+        r = ff.resolve(x.args[0])
+        if r.kind == 'func' and not _is_passthrough_stage(ff, r.func):
+          if ff.param_of(x.args[1]) == p_iter:
+            return True, r.func, x.args[2]
+          return False, r.func, None
       elif isinstance(x, ast.Call) and ff.ext(x.func) == 'builtins.zip' and len(x.args) == 2:
         if ff.param_of(x.args[0]) == p_iter:
           return qfn is not None, qfn, x.args[1]
@@ -199,9 +206,28 @@ def _pair_chain(ff: FuncFlow, e: Optional[ast.AST], p_iter: str):
       elif isinstance(x, ast.Name):
         nxt = x
     if nxt is None:
-      return False, qfn, None
+      return (False if _positively_wrong(ff, xs, p_iter) else None), qfn, None
     cur = nxt
-  return False, qfn, None
+  return None, qfn, None
+
+
+def _positively_wrong(ff: FuncFlow, xs, p_iter: str) -> bool:
+  """The stage that was not recognised pairs the clients with something that is certainly not a per-client key sequence, or drops the
+  pairing altogether (the clients argument itself handed to tree_mean, a zip with the wrong first operand)."""
+  for x in xs:
+    if ff.param_of(x) == p_iter:
+      return True
+    if isinstance(x, ast.Call) and ff.ext(x.func) == 'builtins.zip' and x.args and ff.param_of(x.args[0]) != p_iter:
+      return True
+    # a stage that lets only some of the clients through
+    if isinstance(x, ast.Call) and (ff.ext(x.func) or '') in ('itertools.islice', 'builtins.filter', 'itertools.filterfalse', 'itertools.takewhile',
+                                                            'itertools.dropwhile', 'itertools.compress'):
+      return True
+    if isinstance(x, ast.Subscript) and isinstance(x.slice, ast.Slice):
+      return True
+    if isinstance(x, (ast.GeneratorExp, ast.ListComp)) and any(g.ifs for g in x.generators):
+      return True
+  return False
 
 
 def _is_passthrough_stage(ff_outer: FuncFlow, fn: FuncInfo) -> bool:
